@@ -106,6 +106,50 @@ def hostile(rnd):
     return a
 
 
+_LHNEW = ['-lh4-', '-lh5-', '-lh6-', '-lh7-', '-lhx-', '-lk7-']
+
+
+def hostile_member(rnd):
+    from . import c09
+    from ..lhamodel import lhnew
+    from ..lhamodel.bits import BitWriter
+    from .. import streams
+    method = rnd.choice(_LHNEW + _LHNEW + ['-pm2-', '-pm1-', '-lh1-', '-lz5-', '-lzs-'])
+    r = rnd.random()
+    if method in lhnew.METHODS and r < 0.35:
+        # one block, single-code code table holding any 9-bit value, single-code or tiny offset table, filler
+        OB = lhnew.METHODS[method][0]
+        bw = BitWriter()
+        bw.put(rnd.choice([1, 2, 50, 65535]), 16)
+        bw.put(0, 5); bw.put(rnd.randrange(32), 5)
+        bw.put(0, 9); bw.put(rnd.choice([255, 256, 257, 287, 288, 289, 508, 509, 510, 511, rnd.randrange(512)]), 9)
+        bw.put(0, OB); bw.put(rnd.choice([0, 1, 2, (1 << OB) - 1, rnd.randrange(1 << OB)]), OB)
+        for _ in range(rnd.choice([0, 2, 64])):
+            bw.put(rnd.choice([0, 0xff, rnd.randrange(256)]), 8)
+        data = bw.bytes()
+    elif method in lhnew.METHODS and r < 0.6:
+        data = c09.hostile_lhnew(rnd, method)
+    elif method == '-pm2-' and r < 0.6:
+        data = c09.hostile_pm2(rnd)
+    else:
+        s_, _p, marks = streams.valid_stream(rnd, method, rnd.choice([5, 80, 400]))
+        b = bytearray(s_)
+        for _ in range(rnd.choice([0, 1, 2, 8])):
+            if marks and rnd.random() < 0.6:
+                _k, a0, e0 = rnd.choice(marks)
+                bit = rnd.randrange(a0, max(a0 + 1, e0))
+            else:
+                bit = rnd.randrange(max(1, len(b) * 8))
+            if bit // 8 < len(b):
+                b[bit // 8] ^= 0x80 >> (bit % 8)
+        data = bytes(b[:rnd.randrange(len(b) + 1)] if rnd.random() < 0.2 else b)
+    mb, lvl, os_type = method.encode(), rnd.choice([0, 1, 2]), ord('U')
+    if method == '-lk7-':
+        mb, lvl, os_type = b'-lh7-', 1, 0x20
+    m = H.simple_member(b'f', b'', level=lvl, method=mb, os_type=os_type, packed=data, size=rnd.choice([1, 300, 70000, 2 ** 21]))
+    return H.build(m) + b'\0'
+
+
 def mutate(rnd, A):
     b = bytearray(A)
     for _ in range(rnd.choice([1, 1, 2, 4, 16])):
@@ -200,6 +244,14 @@ def gen_cases(seed, n, corpus):
                 if rnd.random() < 0.8:
                     ops.append((rdh.OP_EXTRACT_NAMED, 0))
             cases.append(rdh.RCase(a, ops, kind=rnd.choice([0, 2]), policy=rnd.choice([0, 1, 2, 3]), meta=kind_in))
+            continue
+        elif r < 0.81:
+            # a well-formed header in front of hostile compressed data: table forms with every count and single-code value at its
+            # extremes, valid streams with bit flips, all decoded through the reader (whose decoder lives in one heap block with
+            # its output buffer, so a command that yields more than the buffer holds runs off the end of that block)
+            a, kind_in = hostile_member(rnd), 'hostile-compressed-member'
+            ops = [(rdh.OP_NEXT, 0), rnd.choice([(rdh.OP_READALL, 0), (rdh.OP_CHECK, 0), (rdh.OP_CHECK_NOCB, 0), (rdh.OP_READ, 100000)]), (rdh.OP_NEXT, 0)]
+            cases.append(rdh.RCase(a, ops, kind=rnd.choice([0, 1, 2]), policy=0, meta=kind_in))
             continue
         else:
             a = hostile(rnd)
